@@ -613,7 +613,13 @@ impl Family for CodecWFamily {
         if decoder && rng.chance(1, 3) {
             // an anchored piece that decodes a long (borrowed) payload run and THEN hits a bad header
             // byte, after which the arena lets go of its chunk: the output must stay readable
-            let (lim, big) = if rng.chance(1, 2) { ("prod".to_string(), rng.range(65, 252) as usize) } else { ("4 300".to_string(), rng.range(65, 299) as usize) };
+            // (a FULL first chunk owes no stuff sequence, so nothing is copied into the arena chunk
+            // before the bad header byte: the borrowed payload is then the only user of that chunk)
+            let (lim, big) = match rng.below(4) {
+                0 | 1 => ("prod".to_string(), 252usize),
+                2 => ("prod".to_string(), rng.range(65, 252) as usize),
+                _ => ("4 300".to_string(), rng.range(65, 299) as usize),
+            };
             ops.push(format!("dec_new {}", lim));
             let mut wire: Vec<u8> = Vec::new();
             if lim == "prod" {
@@ -629,7 +635,7 @@ impl Family for CodecWFamily {
                 1 => wire.extend([1u8, 0xFE]),         // bad second digit
                 _ => wire.extend([0u8, 0u8, 0xFD]),    // empty chunk, then a bad digit
             }
-            let split = rng.range(0, 3) as usize;
+            let split = if rng.chance(1, 2) { 0 } else { rng.range(0, 3) as usize };
             ops.push(format!("feed a {}", to_hex(&wire[..split.min(wire.len())])));
             ops.push(format!("feed a {}", to_hex(&wire[split.min(wire.len())..])));
             ops.push(rng.pick(&["arena_flush", "arena_take_drop"]).to_string());
